@@ -6,7 +6,7 @@ from .. import cast, sym, lin
 from ..sym import C, fmt, linearize as L
 from ..lin import Lin
 from .regs import Regs, T, strip_cast, size_facts, scan_rule, for_headers, wrap_free
-from .c02 import walker, code_of, addr_of, ADDR, N, BUF, loop_const_invariant
+from .c02 import walker, WalkAccount, code_of, addr_of, ADDR, N, BUF, loop_const_invariant
 
 
 def rule_a(ck, R):
@@ -67,17 +67,18 @@ def rule_b(ck, R):
     atom = R.so.get('RegisterAtom', 2)
     bad = None
     arms = set()
+    acct = WalkAccount(ps)
     for p in ps:
         if p.end != 'loopback' or not p.loops:
             continue
         lmap = p.loops[-1][1]
-        bk = [k for k, (h, pre) in lmap.items() if pre == BUF]
-        rk = [k for k, (h, pre) in lmap.items() if pre == N]
-        if not bk or not rk:
+        P, inv, kinds = acct.progress(p)
+        if P is None:
             bad = 'buffer cursor / remaining count not loop-carried'
             continue
-        hb, hr = lmap[bk[0]][0], lmap[rk[0]][0]
-        step = L(hr) - L(p.mem.get(rk[0], hr))
+        facts = eng.path_facts(p) + inv
+        BUFCUR = L(BUF) + P                 # buffer cursor, however the code spells it (a walking pointer, &buf[done])
+        step = acct.step(p)
         rd = [e for e in p.effects if e.kind == 'icall' and e.name.endswith('read')]
         ms = p.calls('memset')
         if rd and ms:
@@ -100,14 +101,14 @@ def rule_b(ck, R):
         if ms:
             arms.add('zero')
             m = ms[0]
-            d = L(m.args[0]) - L(hb)
-            if not (d.is_const() and d.c == 0):
+            d = L(strip_cast(m.args[0])) - BUFCUR
+            if not ((d.is_const() and d.c == 0) or (eng.entails(facts, d) and eng.entails(facts, -d))):
                 bad = ('words of a non-readable area are zeroed at %s, but this chunk of the caller\'s buffer starts at the buffer cursor %s '
-                       '(the readable arm passes exactly that cursor): writes outside the caller\'s n words' % (fmt(m.args[0]), fmt(hb)))
+                       '(the readable arm passes exactly that cursor): writes outside the caller\'s n words' % (fmt(m.args[0]), BUFCUR))
             if m.args[1] != C(0):
                 bad = 'non-readable words are filled with %s' % fmt(m.args[1])
             dl = L(m.args[2]) - step.scale(atom)
-            if not (dl.is_const() and dl.c == 0):
+            if not ((dl.is_const() and dl.c == 0) or (eng.entails(facts, dl) and eng.entails(facts, -dl))):
                 bad = 'zero fill covers %s octets, the chunk has %s atoms' % (fmt(m.args[2]), step)
     if arms != {'read', 'zero'} and bad is None:
         bad = 'expected a readable and a zero-fill arm, found %s' % sorted(arms)
